@@ -19,7 +19,6 @@
 -/
 import Algobra.Props.C15
 import Algobra.Props.C03
-import Algobra.Props.C01
 import Algobra.Proofs.ParseRTPoly
 import Algobra.Proofs.ExtField
 
@@ -244,19 +243,11 @@ theorem ext_elemRoundTrip (M : ExtField.Modulus h32 n g) (hn : n ≤ 2 ^ 63) :
 
 end Ext
 
-/-- the element clause of `C15_full` for every extension field `extfield.Define` returns for a
-    cardinality that fits a machine word -/
-theorem ext_elemRoundTrip_define {q p n : Nat} {g : List Nat} (hq : q < 2 ^ 64)
-    (hd : Define.ext Gen.dbText q = .ok (.ext p n g)) : ElemRoundTrip (extSpec p n g) := by
-  obtain ⟨p', n', g', hF, h32, he, hp, hqe, hn, _, M, _⟩ := C01.define_ext_lawful hq hd
-  injection he with e1 e2 e3
-  subst e1 e2 e3
-  have hn63 : n ≤ 2 ^ 63 := by
-    have h1 : 2 ^ n ≤ p ^ n := Nat.pow_le_pow_left hp.two_le n
-    have h2 : 2 ^ n < 2 ^ 64 := by omega
-    have := (Nat.pow_lt_pow_iff_right (by norm_num : 1 < 2)).1 h2
-    omega
-  exact ext_elemRoundTrip M hn63
+/- For the fields `extfield.Define` returns (cardinality `q < 2^64`) the hypotheses of
+   `ext_elemRoundTrip` are supplied by `C01.define_ext_lawful` (`ExtField.Modulus h32 n g`, and
+   `n < 64` from `q = p^n`): `ElemRoundTrip (extSpec p n g)` follows by one application.  That
+   theorem rests on the Conway-database certificates of C04 (`native_decide` sweeps, admitted for
+   C04 only), so the instantiation is not stated in this file, which stays free of them. -/
 
 -- non-vacuity: GF(9) = F_3[a]/(a^2 + 2a + 2), element 2a + 1
 example : Ext.parse 3 [2, 2, 1] "2a + 1" = .ok [1, 2] := by
